@@ -56,6 +56,18 @@ const (
 type C02File struct {
 	Dir   string `json:"dir"`
 	Lines int    `json:"lines"`
+	// NoFinalNL: the last line has no newline (the reader hands it over at EOF)
+	NoFinalNL bool `json:"no_final_nl,omitempty"`
+	// Compress: stored as f<i>.log.<Compress> (gz | zst); globs are dir/*
+	Compress string `json:"compress,omitempty"`
+}
+
+func (f C02File) name(i int) string {
+	n := fmt.Sprintf("%s/f%d.log", f.Dir, i)
+	if f.Compress != "" {
+		n += "." + f.Compress
+	}
+	return n
 }
 
 type C02Scenario struct {
@@ -96,9 +108,11 @@ func (sc *C02Scenario) fileContent(i int) []byte {
 	var b bytes.Buffer
 	for n := 1; n <= sc.Files[i].Lines; n++ {
 		b.WriteString(c02Line(i, n, sc.keep(n), (n*7+i)%23))
-		b.WriteByte('\n')
+		if n < sc.Files[i].Lines || !sc.Files[i].NoFinalNL {
+			b.WriteByte('\n')
+		}
 	}
-	return b.Bytes()
+	return compress(sc.Files[i].Compress, b.Bytes())
 }
 
 // wanted returns the line numbers of file i that must be delivered.
@@ -179,12 +193,19 @@ func c02Gen(r *Rand, tier string, i int) Scenario {
 			if tier == "quick" && size == 1000 && r.Bool(0.5) {
 				size = 250
 			}
-			sc.Files = append(sc.Files, C02File{Dir: dir, Lines: size})
+			sc.Files = append(sc.Files, C02File{Dir: dir, Lines: size, Compress: PickOf(r, "", "", "", "", "gz", "zst")})
 		}
 		if glob {
-			sc.Commands = append(sc.Commands, dir+"/*.log")
+			sc.Commands = append(sc.Commands, dir+"/*")
 		} else {
-			sc.Commands = append(sc.Commands, fmt.Sprintf("%s/f%d.log", dir, first))
+			sc.Commands = append(sc.Commands, sc.Files[first].name(first))
+		}
+	}
+	// an unterminated last line: in plain mode only for a single file (the
+	// output of several files would legitimately run two lines together)
+	for k := range sc.Files {
+		if (!sc.Plain || len(sc.Files) == 1) && r.Bool(0.3) {
+			sc.Files[k].NoFinalNL = true
 		}
 	}
 	total := sc.selectedTotal()
@@ -198,13 +219,35 @@ func c02Gen(r *Rand, tier string, i int) Scenario {
 		sc.Stalls = append(sc.Stalls, StallSpec{Name: "consumer.uniform", Site: siteStdoutLock, Suffix: "/lock", From: 0, To: -1,
 			DurMs: PickOf(r, 1, 1, 20)})
 	default:
-		k := PickOf(r, 0, 1, 2, 5, 20, 99, 100, 101, 120, 200)
+		k := PickOf(r, 0, 1, 2, 5, 20, 99, 100, 101, 120, 200, 195+r.Intn(12), 195+r.Intn(12))
+		if sc.Plain && r.Bool(0.5) {
+			k *= 2 // two messages per line in plain mode
+		}
 		h := hits - 1 - k
 		if h < 0 {
 			h = 0
 		}
 		sc.Stalls = append(sc.Stalls, StallSpec{Name: "consumer.single", Site: siteStdoutLock, Suffix: "/lock", From: h, To: h + 1,
-			DurMs: PickOf(r, 50, 150, 150, 1000, 6000)})
+			DurMs: PickOf(r, 50, 150, 150, 1000, 3100, 6000)})
+	}
+	if r.Bool(0.08) {
+		// boundary sweep: one file a little longer than the two 100-slot queues,
+		// last line unterminated, and one long consumer pause placed so that the
+		// reader sits at (or one line around) EOF with every queue exactly full
+		sc.Kind, sc.Before, sc.After, sc.Max, sc.KeepEvery = "cat", 0, 0, 0, 1
+		L := r.Range(203, 260)
+		sc.Files = []C02File{{Dir: "d0", Lines: L, NoFinalNL: r.Bool(0.7), Compress: PickOf(r, "", "", "gz")}}
+		sc.Commands = []string{sc.Files[0].name(0)}
+		per := 1
+		if sc.Plain {
+			per = 2
+		}
+		h := (L-215+r.Intn(26))*per + r.Intn(per)
+		if h < 0 {
+			h = 0
+		}
+		sc.Stalls = []StallSpec{{Name: "consumer.single", Site: siteStdoutLock, Suffix: "/lock", From: h, To: h + 1, DurMs: PickOf(r, 2900, 3100, 3100, 6100)}}
+		ncmd = 1
 	}
 	if ncmd > 1 && r.Bool(0.4) {
 		sc.Stalls = append(sc.Stalls, StallSpec{Name: "command.delay", Site: siteSendCommand, Suffix: "/select", From: 1, To: -1,
@@ -255,7 +298,7 @@ func c02Run(t *testing.T, s Scenario, src verifsim.DecisionSource, keep bool) *R
 	}
 	res.Outcome = RunSim(t, opts, func(w *World) {
 		for i, f := range sc.Files {
-			w.WriteFile(fmt.Sprintf("%s/f%d.log", f.Dir, i), sc.fileContent(i))
+			w.WriteFile(f.name(i), sc.fileContent(i))
 		}
 		spec := ReadSpec{Kind: sc.Kind, Transport: sc.Transport, Plain: sc.Plain, NoColor: true, Files: sc.Commands}
 		if sc.Kind == "grep" {
@@ -393,7 +436,11 @@ func c02Shape(s Scenario) string {
 	sc := s.(*C02Scenario)
 	var sz []string
 	for _, f := range sc.Files {
-		sz = append(sz, strconv.Itoa(f.Lines))
+		x := strconv.Itoa(f.Lines) + f.Compress
+		if f.NoFinalNL {
+			x += "!"
+		}
+		sz = append(sz, x)
 	}
 	var st []string
 	for _, sp := range sc.Stalls {
@@ -428,6 +475,11 @@ func c02Shrink(s Scenario) []Scenario {
 	}
 	// shrink files
 	for i, f := range sc.Files {
+		if f.NoFinalNL {
+			n := c02Clone(sc)
+			n.Files[i].NoFinalNL = false
+			out = append(out, n)
+		}
 		if f.Lines > 0 {
 			for _, nl := range []int{0, f.Lines / 2, f.Lines - 1} {
 				if nl != f.Lines {
